@@ -25,8 +25,10 @@ inductive Fault where
   | sealedBase (b : String)
   /-- `name = Constant(v)` with `v` of an unsupported type -/
   | badConstant (name : String) (v : PyVal)
-  /-- `@keys_of(E)` where member `n` of `E` is not a field -/
-  | keysOfMissing (n : String)
+  /-- `@keys_of(…, E, …)` where member `n` of the enum class `E` — at any argument position, among
+      any other members, with any other enum classes before and after — is not a field -/
+  | keysOfMissing (before : List (List String)) (m₁ : List String) (n : String) (m₂ : List String)
+      (after : List (List String))
   /-- an unknown attribute holding a bool / list / dict (guard `block_unknown_consts`) -/
   | unknownAttr (name : String) (a : AttrVal)
   /-- a bare non-typedpy type (guard `block_non_typedpy_field_assignment`) -/
@@ -46,7 +48,8 @@ def inject : Fault → ClassSrc → ClassSrc
   | .optionalRequired n, src => { src with optional := n :: src.optional }
   | .sealedBase b, src => { src with bases := src.bases ++ [b] }
   | .badConstant n v, src => addEntry src n (.obj (.const v))
-  | .keysOfMissing n, src => { src with keysOf := n :: src.keysOf }
+  | .keysOfMissing before m₁ n m₂ after, src =>
+    { src with keysOf := before ++ (m₁ ++ n :: m₂) :: (after ++ src.keysOf) }
   | .unknownAttr n a, src => addEntry src n (.attr a)
   | .bareType n a, src => addEntry src n (.attr a)
 
@@ -67,7 +70,7 @@ def Fault.applies (O : Oracles) (w : World) (src : ClassSrc) : Fault → Bool
     (src.required.isSome && (requiredOwn src).contains n) || (basesRequired w src).contains n
   | .sealedBase b => sealedCls w b
   | .badConstant _ v => !constSupported v
-  | .keysOfMissing n => !((allFieldsOf w src).map (·.1)).contains n
+  | .keysOfMissing _ _ n _ _ => !((allFieldsOf w src).map (·.1)).contains n
   | .unknownAttr n a =>
     w.blockConsts && blockedAttr a && !knownAttrs.contains n && !isDunder n && !isCustomAttr n
   | .bareType n a => w.blockNonTypedpy && isBareType a && !isSunder n && !isDunder n
